@@ -707,43 +707,47 @@ Fixpoint mw_seq (l : list ev) (i : Z) : bool :=
   | _ :: r => mw_seq r i
   end.
 
-Definition first_fail (mws : list bool) : option Z :=
-  (fix go (l : list bool) (i : Z) : option Z :=
-     match l with [] => None | ok :: r => if ok then go r (i + 1) else Some i end) mws 0.
+Fixpoint first_fail_from (l : list bool) (i : Z) : option Z :=
+  match l with [] => None | ok :: r => if ok then first_fail_from r (i + 1) else Some i end.
+Definition first_fail (mws : list bool) : option Z := first_fail_from mws 0.
+
+Definition is_mw_ev (e : ev) : bool := match e with CbMw _ => true | _ => false end.
+Definition is_served_ev (e : ev) : bool := match e with Out (BReady _) | CbParse _ | CbExec _ _ => true | _ => false end.
+Definition is_term_ev (e : ev) : bool := match e with CbTerminate => true | _ => false end.
+
+(* the log up to the first middleware call, and from it on *)
+Fixpoint cut_mw (l : list ev) : list ev * list ev :=
+  match l with
+  | [] => ([], [])
+  | e :: r => if is_mw_ev e then ([], l) else let (a, b) := cut_mw r in (e :: a, b)
+  end.
+(* what follows the first run of the terminate hook *)
+Fixpoint after_term (l : list ev) : list ev :=
+  match l with [] => [] | e :: r => if is_term_ev e then r else after_term r end.
 
 Definition oracle_C19 (sc : scase) (log : list ev) : bool :=
   no_crash log &&
-  let mws := filter (fun e => match e with CbMw _ => true | _ => false end) log in
+  let mws := filter is_mw_ev log in
   (* registration order, each at most once *)
   mw_seq log 0 &&
   (* middlewares run after authentication + parameters and before the first ReadyForQuery / command *)
-  (let (pre, post) := (fix cut (l : list ev) : list ev * list ev :=
-                         match l with
-                         | [] => ([], [])
-                         | e :: r => match e with
-                                     | CbMw _ => ([], l)
-                                     | _ => let (a, b) := cut r in (e :: a, b)
-                                     end
-                         end) log in
+  (let (pre, post) := cut_mw log in
    (match post with
     | [] => true
-    | _ => negb (existsb (fun e => match e with Out (BReady _) | CbParse _ | CbExec _ _ => true | _ => false end) pre) &&
+    | _ => negb (existsb is_served_ev pre) &&
            existsb (fun e => match e with Out (BAuth c) => c =? 0 | _ => false end) pre
     end)) &&
   (* all of them ran before anything is served; a failing one ends the connection *)
-  (let served := existsb (fun e => match e with Out (BReady _) | CbParse _ | CbExec _ _ => true | _ => false end) log in
+  (let served := existsb is_served_ev log in
    match first_fail (sc_mws sc) with
-   | Some j => negb served && (if existsb (fun e => match e with CbMw _ => true | _ => false end) log
-                               then (lenZ mws =? j + 1) && ends_closed log else true)
+   | Some j => negb served && (if existsb is_mw_ev log then (lenZ mws =? j + 1) && ends_closed log else true)
    | None => if served then lenZ mws =? lenZ (sc_mws sc) else true
    end) &&
   (* Terminate: the hook runs at most once and nothing happens afterwards *)
-  (count (fun e => match e with CbTerminate => true | _ => false end) log <=? 1) &&
-  (let after := (fix drop (l : list ev) : list ev :=
-                   match l with [] => [] | CbTerminate :: r => r | _ :: r => drop r end) log in
-   all_b (fun e => match e with Closed | Consume => true | _ => false end) after) &&
+  (count is_term_ev log <=? 1) &&
+  all_b (fun e => match e with Closed | Consume => true | _ => false end) (after_term log) &&
   (match sc_term sc with
-   | None => negb (existsb (fun e => match e with CbTerminate => true | _ => false end) log)
+   | None => negb (existsb is_term_ev log)
    | Some _ => true
    end).
 
